@@ -31,7 +31,11 @@ for d in sorted(glob.glob('/verif/seeded/*/'), key=lambda p:(p.split('/')[-2].sp
             first=line; break
     hist=m.get('strengthening') or 'caught on the first run'
     if m.get('ported'): hist+=' (patch re-based onto the current HEAD)'
-    rows.append('| %s | %s | %s | %s |'%(name, first[:200].replace('|','/'), m.get('last_sweep','not run'), hist.replace('|','/')))
+    last=m.get('last_sweep','not run')
+    if m.get('superseded'):
+        last='superseded: no longer breaks the property on the current HEAD (its demo passes); was detected before'
+        hist+='; '+m['superseded']
+    rows.append('| %s | %s | %s | %s |'%(name, first[:200].replace('|','/'), last, hist.replace('|','/')))
 tbl='| change | what it is (author\'s notes, abridged) | last sweep on /repo (quick check of that property) | history |\n|---|---|---|---|\n'+'\n'.join(rows)+'\n'
 a=s.index('| change | what it is')
 b=s.index('**8.2 Reverse-applying')
